@@ -100,22 +100,27 @@ func (n *RangeLiteralNode) String() string {
 	leftParen := ExpressionPrecedence(n) > ExpressionPrecedence(n.Start)
 	rightParen := ExpressionPrecedence(n) >= ExpressionPrecedence(n.End)
 
-	if leftParen {
-		buff.WriteRune('(')
-	}
-	buff.WriteString(n.Start.String())
-	if leftParen {
-		buff.WriteRune(')')
+	// beginless (`...5`) and endless (`5...`) ranges have no Start / End
+	if n.Start != nil {
+		if leftParen {
+			buff.WriteRune('(')
+		}
+		buff.WriteString(n.Start.String())
+		if leftParen {
+			buff.WriteRune(')')
+		}
 	}
 
 	buff.WriteString(n.Op.String())
 
-	if rightParen {
-		buff.WriteRune('(')
-	}
-	buff.WriteString(n.End.String())
-	if rightParen {
-		buff.WriteRune(')')
+	if n.End != nil {
+		if rightParen {
+			buff.WriteRune('(')
+		}
+		buff.WriteString(n.End.String())
+		if rightParen {
+			buff.WriteRune(')')
+		}
 	}
 
 	return buff.String()
